@@ -184,7 +184,8 @@ SHIM2_C = r"""
                    every sockaddr is malloc'ed with exactly that many bytes, but never fewer than sizeof(struct sockaddr) —
                    the size every consumer, ASan's own getifaddrs interceptor included, may assume — so that a sanitizer
                    build sees any read past the object)
-     ioctl.txt     "<ret> <errno> <mtu> <flags> <speed_lo> <speed_hi> <duplex>" for SIOCGIFMTU / SIOCGIFFLAGS / SIOCETHTOOL;
+     ioctl.txt     "<ret> <errno> <mtu> <flags> <speed_lo> <speed_hi> <duplex>" for SIOCGIFMTU / SIOCGIFFLAGS / SIOCETHTOOL
+                   (default answer), optionally followed by per-NIC / per-request lines "<name hex> <M|F|E> <same 7 numbers>";
                    the 16 raw bytes of ifr_name the call carried are appended (hex) to ioctl.out
      sysinfo.txt   seven decimal numbers: totalram freeram bufferram sharedram totalswap freeswap mem_unit            */
 static const char *dir(void) { return getenv("C17_SHIM_DIR"); }
@@ -241,6 +242,17 @@ int ioctl(int fd, unsigned long req, ...) {
         if (f) {
             int ret = 0, err = 0, mtu = 0; unsigned flags = 0, lo = 0, hi = 0, duplex = 0;
             int got = fscanf(f, "%d %d %d %u %u %u %u", &ret, &err, &mtu, &flags, &lo, &hi, &duplex);
+            if (got == 7) {
+                /* optional per-NIC, per-request lines: "<name hex> <M|F|E> ret errno mtu flags lo hi duplex" */
+                struct ifreq *ifr0 = arg; char nm[64], want[2 * IFNAMSIZ + 1], code; int r2, e2, m2, k; unsigned f2, l2, h2, d2;
+                for (k = 0; k < IFNAMSIZ && ifr0->ifr_name[k]; k++) sprintf(want + 2 * k, "%02x", (unsigned char)ifr0->ifr_name[k]);
+                want[2 * k] = 0;
+                while (fscanf(f, "%63s %c %d %d %d %u %u %u %u", nm, &code, &r2, &e2, &m2, &f2, &l2, &h2, &d2) == 9) {
+                    if (strcmp(nm, want) == 0 && code == (req == SIOCGIFMTU ? 'M' : req == SIOCGIFFLAGS ? 'F' : 'E')) {
+                        ret = r2; err = e2; mtu = m2; flags = f2; lo = l2; hi = h2; duplex = d2; break;
+                    }
+                }
+            }
             fclose(f);
             if (got == 7) {
                 struct ifreq *ifr = arg; char p[4096]; FILE *o; int i;
